@@ -313,8 +313,135 @@ def _inline_return_temps(tree):
     return tree
 
 
+_FUNC_FORM = {"numel", "gather", "clamp", "sqrt", "exp", "log", "sin", "cos", "tan", "atan", "tanh", "reciprocal", "square", "outer"}
+
+
+def _tcall(name, *args):
+    return ast.Call(func=ast.Attribute(value=ast.Name(id="torch", ctx=ast.Load()), attr=name, ctx=ast.Load()), args=list(args), keywords=[])
+
+
+def _mcall(recv, name, *args):
+    return ast.Call(func=ast.Attribute(value=recv, attr=name, ctx=ast.Load()), args=list(args), keywords=[])
+
+
+class _ExprCanon(ast.NodeTransformer):
+    """One spelling for interchangeable torch / python expressions (the spelling the pinned tree uses most):
+         a @ b                      -> torch.matmul(a, b)
+         x.mH / x.adjoint()         -> x.transpose(-2, -1).conj()        x.mT -> x.transpose(-2, -1)
+         torch.neg(x) / x.neg()     -> -x                                torch.conj(x) -> x.conj()
+         x.f(..) for f in numel, gather, clamp, sqrt, exp, log, sin, cos, tan, atan, ...  -> torch.f(x, ..)
+         x.flatten() / torch.flatten(x)  -> x.reshape(-1)                x.reshape((a, b)) -> x.reshape(a, b)
+         x[..., None] -> x.unsqueeze(-1)   x[..., None, :] -> x.unsqueeze(-2)   x[None] -> x.unsqueeze(0)
+         torch.linalg.inv(x) -> torch.inverse(x)                         torch.cat(xs, dim=0) -> torch.cat(xs)
+         isinstance(x, (A, B)) -> isinstance(x, A) or isinstance(x, B)   [v] * n -> [v for _ in range(n)]  (v a constant)
+       Every rewrite is value-preserving (same torch semantics); positions are kept."""
+
+    def visit_BinOp(self, node):
+        self.generic_visit(node)
+        if isinstance(node.op, ast.MatMult):
+            return ast.copy_location(_tcall("matmul", node.left, node.right), node)
+        if isinstance(node.op, ast.Mult) and isinstance(node.left, ast.List) and len(node.left.elts) == 1 and isinstance(node.left.elts[0], ast.Constant):
+            comp = ast.ListComp(elt=node.left.elts[0], generators=[ast.comprehension(target=ast.Name(id="_", ctx=ast.Store()),
+                                iter=ast.Call(func=ast.Name(id="range", ctx=ast.Load()), args=[node.right], keywords=[]), ifs=[], is_async=0)])
+            return ast.copy_location(comp, node)
+        return node
+
+    def visit_Attribute(self, node):
+        self.generic_visit(node)
+        if isinstance(node.ctx, ast.Load) and node.attr in ("mH", "mT"):
+            t = _mcall(node.value, "transpose", ast.UnaryOp(op=ast.USub(), operand=ast.Constant(2)), ast.UnaryOp(op=ast.USub(), operand=ast.Constant(1)))
+            return ast.copy_location(_mcall(t, "conj") if node.attr == "mH" else t, node)
+        return node
+
+    def visit_Subscript(self, node):
+        self.generic_visit(node)
+        if isinstance(node.ctx, ast.Load):
+            sl = node.slice
+            elts = sl.elts if isinstance(sl, ast.Tuple) else [sl]
+            is_none = lambda e: isinstance(e, ast.Constant) and e.value is None
+            is_ell = lambda e: isinstance(e, ast.Constant) and e.value is Ellipsis
+            is_full = lambda e: isinstance(e, ast.Slice) and e.lower is None and e.upper is None and e.step is None
+            k = None
+            if len(elts) == 1 and is_none(elts[0]):
+                k = 0
+            elif len(elts) == 2 and is_ell(elts[0]) and is_none(elts[1]):
+                k = -1
+            elif len(elts) == 3 and is_ell(elts[0]) and is_none(elts[1]) and is_full(elts[2]):
+                k = -2
+            if k is not None:
+                arg = ast.Constant(0) if k == 0 else ast.UnaryOp(op=ast.USub(), operand=ast.Constant(-k))
+                return ast.copy_location(_mcall(node.value, "unsqueeze", arg), node)
+        return node
+
+    def visit_Call(self, node):
+        self.generic_visit(node)
+        f = node.func
+        fn = ast.unparse(f)
+        if fn in ("torch.neg",) and len(node.args) == 1 and not node.keywords:
+            return ast.copy_location(ast.UnaryOp(op=ast.USub(), operand=node.args[0]), node)
+        if fn == "torch.conj" and len(node.args) == 1 and not node.keywords:
+            return ast.copy_location(_mcall(node.args[0], "conj"), node)
+        if fn == "torch.linalg.inv" and len(node.args) == 1:
+            return ast.copy_location(_tcall("inverse", node.args[0]), node)
+        if fn == "torch.flatten" and len(node.args) == 1 and not node.keywords:
+            return ast.copy_location(_mcall(node.args[0], "reshape", ast.UnaryOp(op=ast.USub(), operand=ast.Constant(1))), node)
+        if fn == "torch.cat" and len(node.args) == 1 and len(node.keywords) == 1 and node.keywords[0].arg == "dim" \
+                and isinstance(node.keywords[0].value, ast.Constant) and node.keywords[0].value.value == 0:
+            node.keywords = []
+            return node
+        if fn == "isinstance" and len(node.args) == 2 and isinstance(node.args[1], ast.Tuple) and node.args[1].elts:
+            calls = [ast.Call(func=ast.Name(id="isinstance", ctx=ast.Load()), args=[node.args[0], t], keywords=[]) for t in node.args[1].elts]
+            return ast.copy_location(calls[0] if len(calls) == 1 else ast.BoolOp(op=ast.Or(), values=calls), node)
+        if isinstance(f, ast.Attribute):
+            recv_root = f.value
+            while isinstance(recv_root, (ast.Attribute, ast.Subscript, ast.Call)):
+                recv_root = recv_root.value if not isinstance(recv_root, ast.Call) else recv_root.func
+            is_module = isinstance(f.value, ast.Name) and f.value.id in ("torch", "np", "numpy", "math", "F")
+            if not is_module:
+                if f.attr == "neg" and not node.args and not node.keywords:
+                    return ast.copy_location(ast.UnaryOp(op=ast.USub(), operand=f.value), node)
+                if f.attr == "adjoint" and not node.args:
+                    t = _mcall(f.value, "transpose", ast.UnaryOp(op=ast.USub(), operand=ast.Constant(2)), ast.UnaryOp(op=ast.USub(), operand=ast.Constant(1)))
+                    return ast.copy_location(_mcall(t, "conj"), node)
+                if f.attr == "flatten" and not node.args and not node.keywords:
+                    return ast.copy_location(_mcall(f.value, "reshape", ast.UnaryOp(op=ast.USub(), operand=ast.Constant(1))), node)
+                if f.attr in ("reshape", "view") and len(node.args) == 1 and isinstance(node.args[0], ast.Tuple) and not node.keywords \
+                        and node.args[0].elts:
+                    node.args = list(node.args[0].elts)
+                    return node
+                if f.attr in _FUNC_FORM and not (isinstance(f.value, ast.Name) and f.value.id == "self"):
+                    new = ast.Call(func=ast.Attribute(value=ast.Name(id="torch", ctx=ast.Load()), attr=f.attr, ctx=ast.Load()),
+                                   args=[f.value] + list(node.args), keywords=node.keywords)
+                    return ast.copy_location(new, node)
+        return node
+
+
+def _split_tuple_assigns(tree):
+    """`a, b = (x, y)` -> `a = x; b = y` when no right-hand side mentions a left-hand name (so the order does not matter)"""
+    for owner in ast.walk(tree):
+        for fld in ("body", "orelse", "finalbody"):
+            b = getattr(owner, fld, None)
+            if not (isinstance(b, list) and b and isinstance(b[0], ast.stmt)):
+                continue
+            out = []
+            for st in b:
+                if isinstance(st, ast.Assign) and len(st.targets) == 1 and isinstance(st.targets[0], (ast.Tuple, ast.List)) \
+                        and isinstance(st.value, (ast.Tuple, ast.List)) and len(st.targets[0].elts) == len(st.value.elts) \
+                        and all(isinstance(t, ast.Name) for t in st.targets[0].elts) and not any(isinstance(v, ast.Starred) for v in st.value.elts):
+                    lhs = {t.id for t in st.targets[0].elts}
+                    rhs = {n.id for v in st.value.elts for n in ast.walk(v) if isinstance(n, ast.Name)}
+                    if not (lhs & rhs):
+                        for t, v in zip(st.targets[0].elts, st.value.elts):
+                            out.append(ast.copy_location(ast.Assign(targets=[t], value=v), st))
+                        continue
+                out.append(st)
+            setattr(owner, fld, out)
+    return tree
+
+
 def normal_form(tree):
     """the load-time normal form of a module (see DESIGN 2.1b)"""
+    tree = ast.fix_missing_locations(_split_tuple_assigns(_ExprCanon().visit(tree)))
     return _inline_return_temps(_flatten_terminating_ifs(_LoadNormaliser().visit(tree)))
 
 
@@ -324,8 +451,12 @@ class Module:
         self.relpath = relpath
         self.modname = modname
         self.source = source
-        self.tree = normal_form(ast.parse(source, filename=path))
-        from . import alpha
+        from . import alpha, inline
+        tree0 = ast.parse(source, filename=path)
+        ref_funcs = alpha.load_table().get(relpath.replace(os.sep, "/"))
+        # helpers that the reference version of this module does not have are inlined back into their callers
+        self.inlined_helpers = inline.inline_new_helpers(tree0, set(ref_funcs)) if ref_funcs else []
+        self.tree = normal_form(tree0)
         self.alpha_renamed = alpha.normalise(self.tree, relpath)   # locals renamed back to their reference names
         self.functions: Dict[str, FuncInfo] = {}
         self.classes: Dict[str, ClassInfo] = {}
